@@ -52,7 +52,17 @@ SliceForms == { N("Slice", << L >>), N("Slice", << L, L >>), N("Slice", << NoneE
                 N("Slice", << K(BoolV(FALSE)), L >>), N("Slice", << N("Product", << KI(0), x >>), L >>) }
 Extra == { B("Sub", tt, N("Tup", << A, L >>)), B("Sub", tt, N("Tup", << L >>)), B("Sub", tt, I),
            N("Tup", << A >>), N("Tup", << A, L >>), N("Tup", << >>),
-           B("Sub", tt, N("Tup", << L, I >>)) }
+           B("Sub", tt, N("Tup", << L, I >>)),
+           \* a slice that is not the last index: its bounds end at the comma
+           B("Sub", tt, N("Tup", << I, L >>)), B("Sub", tt, N("Tup", << I, I >>)),
+           B("Sub", tt, N("Tup", << L, I, L >>)) }
+\* names a sloppy lexer splits: keyword / literal-word prefixes, digits, underscores
+TrickyNames == {"not_x", "not1", "or_1", "and2", "if_", "else_9", "note", "iffy", "orb", "Truex",
+                "Nonesuch", "_y", "x_1", "a_b"}
+NameRoots == UNION { { V(nm), N("Sum", << V(nm), x >>), N("Product", << KI(2), V(nm) >>),
+                       U("LogNot", V(nm)), U("BitNot", V(nm)), Call(V(nm), << x >>), Look(oo, nm),
+                       B("Sub", tt, V(nm)), IfE(V(nm), x, V(nm)), N("LogAnd", << x, V(nm) >>) }
+                     : nm \in TrickyNames }
 
 \* reduced alphabet for the three-level nestings
 MidSkel(h) ==
@@ -78,7 +88,7 @@ FirstHoleTy(e) ==
                       LET r == FirstHoleTy(ks[i]) IN IF r # "" THEN r ELSE Go(i + 1)
          IN Go(1)
 
-Roots == Skel(A) \cup Extra \cup Leaves
+Roots == Skel(A) \cup Extra \cup Leaves \cup NameRoots
          \cup (IF Tier = "quick" THEN MidSkel(M) ELSE Skel(M))
 
 Init == tree \in Roots
